@@ -31,7 +31,7 @@ def paths(S, s, runtime):
     ]
 
 
-def build(s, runtime, only=None):
+def build(s, runtime, only=None, exclude=()):
     """program text + expected stdout for one string (all paths, or one path)"""
     lines = [PRELUDE.rstrip("\n")]
     expected = []
@@ -48,6 +48,8 @@ def build(s, runtime, only=None):
         S = gen_strings.go_quote(s)
     for name, src, exp in paths(S, s, runtime):
         if only is not None and name != only:
+            continue
+        if name in exclude:
             continue
         lines.append('print("--%s")' % name)
         expected.append("--" + name)
@@ -91,6 +93,16 @@ def run(res, b, tier, seed):
         canon = "OK " + impl[1] if impl[0] == "OK" else impl[0]
         if c.meta.get("model_bash") != canon:
             dis.append(c)
+    # the semantic models on these strings: every literal (all data paths but the file one) through the Lean source semantics and the
+    # Lean bash model next to the reference result and /bin/bash (ties the quoting part of Sem2/Bash to bash on special characters)
+    semcases = []
+    for label, s0 in strings:
+        if all(ord(ch) < 128 for ch in s0):
+            src, exp = build(s0, "literal", exclude=("write-read",))
+            semcases.append(pipeline.Case("s%d" % len(semcases), {"main.tsh": src.encode()},
+                                          meta=dict(src=src, expected_out=exp.split("\n")[:-1], expected_status=0, s=s0)))
+    sdis, sfails = semcheck.check_cases(b, semcases)
+    sem_dis = [d for d in sdis if str(d[1]).startswith("SEM")]
     runnable = [c for c in cases if c.out.get("BASH", ("", ""))[0] == "OK"]
     fails = []
     for c in cases:
@@ -132,6 +144,9 @@ def run(res, b, tier, seed):
         samples=[dict(string=cases[5].meta["s"], origin=cases[5].meta["origin"], program=cases[5].meta["src"][:400])],
         correspondence=dict(stage="AST + bash script (whole model pipeline)", compared=len(cases), disagreements=len(dis)),
         oracle_failures=len(fails),
+        semantic_models=dict(semcheck.SEM_STATS, disagreements=len(sem_dis),
+                             rule="the literal-origin programs (all data paths except write/read) run through Sem2/Src and Sem2/Bash of the Lean development, "
+                                  "next to the expected output and /bin/bash"),
         failing_paths={"%s/%s" % k: len(v) for k, v in sorted(by_path.items())},
     ))
     real = []
@@ -147,6 +162,11 @@ def run(res, b, tier, seed):
                                      program=build(c.meta["s"], c.meta["origin"], only=None if name in ("all", "combined") else name)[0],
                                      stdout=r["stdout"].decode("latin1")[:500] if r else None, stderr=r["stderr"].decode("latin1")[:300] if r else None,
                                      canary=("canary" in r["tree"]) if r else None))
+    if not real and sem_dis:
+        c, got, want = sem_dis[0]
+        if not (("$" in c.meta["s"] or "`" in c.meta["s"]) and res.known_finding("literal-dollar-backquote-expanded", "semantic models")):
+            res.violation("correspondence", dict(stage="semantic models (Sem2/Src, Sem2/Bash) vs reference and /bin/bash", src=c.meta["src"], model=str(got)[:2000],
+                                                 implementation=str(want)[:2000], disagreements=len(sem_dis)), no_input=True)
     if not real and (dis or not pr["ok"]):
         if dis:
             c = dis[0]
